@@ -8,10 +8,15 @@ src = Path(f"/tmp/proofs/{sid}/lean/FrourosProofs")
 dst = Path("/verif/lean/FrourosProofs")
 files = [Path(f) for f in sys.argv[3:]] or [p.relative_to(src) for p in src.rglob("*.lean")
                                             if not (dst / p.relative_to(src)).exists() or (dst / p.relative_to(src)).read_text() != p.read_text()]
-# the model must be untouched
+# existing model files must be untouched; NEW model files (allowed for some tasks) are copied over
 r = subprocess.run(["diff", "-rq", f"/tmp/proofs/{sid}/lean/FrourosModel", "/verif/lean/FrourosModel"], capture_output=True, text=True)
-if r.stdout.strip():
-    print("MODEL DIFFERS:\n" + r.stdout)
+for line in r.stdout.strip().splitlines():
+    m = re.match(r"Only in /tmp/proofs/[^/]+/lean/FrourosModel: (\S+\.lean)", line)
+    if m:
+        shutil.copy(f"/tmp/proofs/{sid}/lean/FrourosModel/{m.group(1)}", f"/verif/lean/FrourosModel/{m.group(1)}")
+        print("copied NEW model file", m.group(1))
+    else:
+        print("MODEL DIFFERS:", line)
 mods, names = [], []
 for f in files:
     (dst / f).parent.mkdir(parents=True, exist_ok=True)
